@@ -1,6 +1,10 @@
 // C07 harness: the real alpaqa::ALMSolver<InnerSolverT> (alm.tpp + alm-helpers.tpp from the working
 // tree), instantiated with a *scripted* inner solver that returns the next scripted
-// (status, ε, err_z, Δy, Δx, statistics, clock bit) and records what it was called with.
+// (status, ε, err_z, Δy, Δx, statistics, clock bit, stop bit) and records what it was called with.
+// Stop bit: the scripted inner solver calls `alm.stop()` (the ALM solver's own stop(), which also forwards
+// to ScriptedInner::stop()) from inside that inner solve and still returns its scripted status — the inner
+// outcome does not report the request.  `prestop`: alm.stop() is called before operator() is entered.
+#include <functional>
 #include "proto.hpp"
 #include <alpaqa/config/config.hpp>
 #include <alpaqa/implementation/outer/alm.tpp>
@@ -8,6 +12,7 @@
 #include <alpaqa/outer/alm.hpp>
 #include <alpaqa/problem/box-constr-problem.hpp>
 #include <alpaqa/problem/type-erased-problem.hpp>
+#include <algorithm>
 #include <chrono>
 #include <memory>
 #include <optional>
@@ -32,6 +37,7 @@ struct Entry {
     real_t dx;
     unsigned iters, extra;
     bool oot;
+    bool stop = false;
 };
 
 struct Call {
@@ -73,6 +79,8 @@ struct Shared {
     // the ALM solver's own parameter block: the scripted clock bit makes the time limit expire
     alpaqa::ALMParams<config_t> *alm_params = nullptr;
     bool stop_called = false;
+    // calls ALMSolver::stop() of the solver that owns this inner solver
+    std::function<void()> alm_stop;
 };
 
 struct ScriptedInner {
@@ -92,8 +100,10 @@ struct ScriptedInner {
         if (k < sh->script.size()) {
             e = sh->script[k];
         } else {
-            e = Entry{alpaqa::SolverStatus::Converged, 0, vec::Zero(sh->m), vec::Zero(sh->m), 0, 1, 0, false};
+            e = Entry{alpaqa::SolverStatus::Converged, 0, vec::Zero(sh->m), vec::Zero(sh->m), 0, 1, 0, false, false};
         }
+        if (e.stop && sh->alm_stop)
+            sh->alm_stop();
         for (index_t i = 0; i < x.size(); ++i)
             x(i) = x(i) + e.dx;
         for (index_t i = 0; i < y.size() && i < e.dy.size(); ++i)
@@ -129,6 +139,7 @@ static Entry read_entry(vp::Toks &t) {
     e.iters  = (unsigned)t.nat();
     e.extra  = (unsigned)t.nat();
     e.oot    = t.boolean();
+    e.stop   = t.boolean();
     return e;
 }
 
@@ -163,7 +174,8 @@ int main() {
                 bool has_sig = t.boolean();
                 vec sig      = t.vec();
                 vec x = t.vec(), y = t.vec();
-                long ns = t.nat();
+                bool prestop = t.boolean();
+                long ns      = t.nat();
                 auto sh = std::make_shared<Shared>();
                 sh->m   = m;
                 for (long i = 0; i < ns; ++i)
@@ -177,6 +189,9 @@ int main() {
                 alpaqa::ALMSolver<ScriptedInner> alm{P, ScriptedInner{sh}};
                 alm.os         = &std::cerr;
                 sh->alm_params = const_cast<alpaqa::ALMParams<config_t> *>(&alm.get_params());
+                sh->alm_stop   = [&alm] { alm.stop(); };
+                if (prestop)
+                    alm.stop();
                 alpaqa::TypeErasedProblem<config_t> te{&prob};
                 std::optional<rvec> Σ = has_sig ? std::optional<rvec>{sig} : std::nullopt;
                 std::string out;
@@ -193,6 +208,10 @@ int main() {
                                vp::fmtv(c.errbuf) + ' ' + vp::f2h(c.tol) + ' ' + (c.aor ? '1' : '0') + ' ' +
                                std::to_string(c.outer_iter) + ' ' + (c.check ? '1' : '0');
                     }
+                    if ((prestop || std::any_of(sh->script.begin(), sh->script.begin() +
+                                                    std::min(sh->script.size(), sh->calls.size()),
+                                                [](const Entry &e) { return e.stop; })) != sh->stop_called)
+                        out = "stop-not-forwarded";
                 } catch (std::logic_error &e) {
                     // the statement after the loop; std::invalid_argument etc. are reported apart
                     out = std::string(e.what()).find("loop error") != std::string::npos ? "logic_error"
